@@ -376,6 +376,7 @@ def run(ctx):
     success_discipline(ctx, X, RES)
     factor_accessors_match_ordering(ctx)
     success_requires_orthonormal_iterate(ctx, X)
+    pivots_positive_before_sqrt(ctx)
 
 
 def factor_accessors_match_ordering(ctx, rule='sparse-factors-used-with-their-ordering'):
@@ -457,3 +458,35 @@ def success_requires_orthonormal_iterate(ctx, X, rule='success-requires-a-b-orth
                   'Success is assigned only under `%s`' % ' && '.join(show(sym(comp, i['cond'], inline=False)) for i in comp.ancestors(a) if i['k'] == 'IfStmt')[:160] if ok else
                   'Success is assigned under %s only: nothing ties the verdict to the norm of the columns of the iterate, a column that collapsed to zero passes the residual test' %
                   ([show(sym(comp, i['cond'], inline=False)) for i in comp.ancestors(a) if i['k'] == 'IfStmt'] or 'no test'))
+
+
+def pivots_positive_before_sqrt(ctx, rule='gram-pivots-tested-before-the-square-root'):
+    """orthogonalizeInPlace takes the square roots of the LDLT pivots of M'BM through complex numbers and keeps the real part
+    of the result: a negative pivot (M'BM singular up to rounding: the residual block has fewer independent directions than
+    columns, e.g. when the invariant subspace that contains the start block is smaller than 3k) silently becomes an exact zero
+    column, a rounding-level positive one a column of amplified noise.  The Gram matrix of the Rayleigh-Ritz step assumes
+    R'BR = I, so the zero column produces a spurious Ritz value 0, which is selected (A positive definite), and the following
+    iterations replace it by whatever Ritz value comes next: Success with {1, 2, 3, 4, 15} instead of {1, 2, 3, 4, 5}, X
+    orthonormal, residuals below tolerance.  The square root must be taken only behind a test that the pivots are positive
+    (relative to the largest one); the LDLT status alone says nothing (it reports Success for a singular matrix)."""
+    M = _cls(ctx)
+    fn = M.get('orthogonalizeInPlace')
+    if fn is None or not fn.cfg:
+        raise AnalysisBroken('LOBPCGSolver::orthogonalizeInPlace not analysed')
+    roots = [x for x in fn.walk() if x['k'] == 'CXXMemberCallExpr' and x.get('callee') in ('cwiseSqrt', 'sqrt')]
+    pivots = [x for x in fn.walk() if x['k'] == 'CXXMemberCallExpr' and x.get('callee') == 'vectorD']
+    if not roots or not pivots:
+        raise AnalysisBroken('orthogonalizeInPlace: pivot square root not found')
+    tests = []
+    for i in fn.walk():
+        if i['k'] == 'IfStmt':
+            t = show(sym(fn, i['cond']))
+            if 'vectorD(' in t and any(op in t for op in ('<', '<=', '>', '>=')) and any(k in t for k in ('all(', 'any(', 'minCoeff(')):
+                kids = fn.kids(fn.nodes[i['then']]) if fn.nodes[i['then']]['k'] == 'CompoundStmt' else [fn.nodes[i['then']]]
+                if kids and kids[-1]['k'] == 'ReturnStmt':
+                    tests.append(i)
+    ok = bool(tests) and all(paths.dominated_by(fn, fn.pos_of(r), lambda n_: any(fn.within(n_, t_['cond']) for t_ in tests)) for r in roots if fn.pos_of(r))
+    ctx.check(ok, rule, 'LOBPCGSolver::orthogonalizeInPlace', fn.qname,
+              'the square roots of the pivots are taken only behind a positivity test that leaves with a failure status' if ok else
+              'the square roots of the LDLT pivots (`%s`) are taken through complex numbers with no test of their sign or size, and the real part of the result is kept: a negative pivot '
+              'becomes a zero column, the Rayleigh-Ritz step (which assumes R\'BR = I) gets a spurious Ritz value 0, and Success is later reported with an eigenvalue that is not among the k smallest' % fn.s(roots[0])[:40])
